@@ -119,6 +119,28 @@ func vAssert(c bool, label string) {
 }
 func vNoPanic()         {}
 func vReach(tag string) {}
+
+type zzObsVal struct {
+	Tag  string   `json:"tag"`
+	Vals []uint64 `json:"vals"`
+}
+
+var zzObs []zzObsVal
+
+func vObserve(tag string, v uint64) { zzObs = append(zzObs, zzObsVal{tag, []uint64{v}}) }
+func vObserveBytes(tag string, b []byte) {
+	o := zzObsVal{Tag: tag, Vals: make([]uint64, len(b))}
+	for i, x := range b {
+		o.Vals[i] = uint64(x)
+	}
+	zzObs = append(zzObs, o)
+}
+func zzDumpObs() {
+	if len(zzObs) > 0 {
+		j, _ := json.Marshal(zzObs)
+		fmt.Println("VERIF-OBS " + string(j))
+	}
+}
 func vKnown(id string, c bool) bool {
 	for _, k := range zzVec.Known {
 		if k == id {
